@@ -523,6 +523,83 @@ func buildC19(cfg *mon.Config) []*mon.Sub {
 			c.NonTrivial()
 		},
 	}
+	clock := &mon.Sub{
+		Name:       "shared-calculator-clock-and-random-functions",
+		Serial:     true,
+		Rule:       "expressions that call Rnd, Random, Now and Ticks (alone, several per expression, inside If / Sum / comparisons), each compiled once and evaluated by 2, 4 and 16 goroutines sharing the calculator (once with hook H3 yielding inside evaluations, once with the hooks removed): every evaluation must return a value without error, Rnd/Random in [0,1), the clock readings inside the interval of the whole run; the race detector watches the functions' own state; a case is one evaluation",
+		Exhaustive: true, DistinctByGen: true, Floor: 50,
+		Gen: func(emit func(string)) {
+			for _, e := range []string{"Rnd()", "Random()", "Rnd() + Random()", "If(Rnd() < 2, a, b)", "Sum(Rnd(), Random(), Rnd(), a)", "Rnd() * a + Random() * b", "Ticks()", "Now()", "Ticks() > 0 AND Now() > dt", "If(Random() >= 0, Ticks(), 0)"} {
+				for _, g := range []int{2, 4, 16} {
+					emit(e + "\x00" + strconv.Itoa(g) + "\x00" + strconv.Itoa(cfg.N(50, 1500)))
+				}
+			}
+		},
+		Exec: func(c *mon.Case) {
+			parts := strings.Split(c.Payload, "\x00")
+			src := parts[0]
+			G, _ := strconv.Atoi(parts[1])
+			reps, _ := strconv.Atoi(parts[2])
+			e := stdEnv(mon.NewRng(7, "c19-clock"))
+			t0 := time.Now().Add(-2 * time.Second)
+			for pass := 1; pass <= 2; pass++ {
+				calc := calculator.NewExpressionCalculator()
+				if err := calc.SetExpression(src); err != nil {
+					c.Failf("expression rejected", "%q: %v", src, err)
+					return
+				}
+				if pass == 2 {
+					calculator.VerifEvalHook = nil
+				} else {
+					atomic.StoreInt32(&h3.enabled, 1)
+				}
+				bad := make([]string, G)
+				start := make(chan struct{})
+				var wg sync.WaitGroup
+				for g := 0; g < G; g++ {
+					wg.Add(1)
+					go func(g int) {
+						defer wg.Done()
+						own := e.collection()
+						<-start
+						for n := 0; n < reps; n++ {
+							var r *variants.Variant
+							var err error
+							if p := mon.Try(func() { r, err = calc.EvaluateUsingVariables(own) }); p != nil || err != nil || r == nil {
+								bad[g] = fmt.Sprintf("goroutine %d, evaluation %d: result %v error %v panic %v", g, n, r, err, p)
+								return
+							}
+							v := snap(r)
+							if (src == "Rnd()" || src == "Random()") && (v.T != "F" || v.Float() < 0 || v.Float() >= 1) {
+								bad[g] = fmt.Sprintf("goroutine %d, evaluation %d: %s is not in [0,1)", g, n, v)
+								return
+							}
+							if src == "Now()" && (v.T != "T" || v.Time().Before(t0) || v.Time().After(time.Now().Add(2*time.Second))) {
+								bad[g] = fmt.Sprintf("goroutine %d, evaluation %d: %s is not a reading of the clock during the run", g, n, v)
+								return
+							}
+						}
+					}(g)
+				}
+				close(start)
+				wg.Wait()
+				if pass == 1 {
+					atomic.StoreInt32(&h3.enabled, 0)
+					h3Signature()
+				} else {
+					installEvalHooks()
+				}
+				for _, b := range bad {
+					if b != "" {
+						c.Failf("concurrent evaluation of an expression that calls a clock or random function fails", "expression=%q\n%s", src, b)
+						return
+					}
+				}
+			}
+			c.AddEvals(2*G*reps-1, 2*G*reps-1)
+			c.NonTrivial()
+		},
+	}
 	race := &mon.Sub{
 		Name:   "race-detector-reports",
 		Serial: true,
@@ -601,5 +678,5 @@ func buildC19(cfg *mon.Config) []*mon.Sub {
 			}
 		},
 	}
-	return []*mon.Sub{exprs, tmpls, own, args, race}
+	return []*mon.Sub{exprs, tmpls, own, args, clock, race}
 }
